@@ -115,6 +115,28 @@ CHECKS = {
         note='undo of a transaction that itself wrote one oid twice is '
              'outside the modelled alphabet; after a pack the list model is '
              'not continued'),
+    'C07': dict(
+        technique='explicit-state exploration of all object-graph histories '
+                  'up to a depth x every pack time x gc on/off on the real '
+                  'storages; relational oracle (unpacked vs packed battery) '
+                  'and differential undo',
+        text='Histories over a root and 2 (3) objects with explicit reference '
+             'lists - create linked / as garbage, link, unlink (cycles), '
+             'modify, undo - explored to depth 4 (5) from the root and from a '
+             'root->1->2 chain on FileStorage and MappingStorage. For every '
+             'node, pack(T, gc) runs on a fresh replay for every T in {before '
+             'first, each tid, after last} x gc on/off; the packed storage '
+             'must answer like the unpacked one for every snapshot after T of '
+             'every pinned object, list the same later transactions, have '
+             'removed only superseded or garbage revisions, answer the same '
+             'after reopen (file re-parsed independently) and after a second '
+             'pack, and undo every later transaction with the same result as '
+             'an unpacked copy.',
+        design='3 (C07)',
+        note='weak reading: objects unreachable at T and not written after T '
+             'may be removed even if re-linked later (strict reading reported '
+             'as known finding); a failing pack must leave everything '
+             'unchanged'),
     'C09': dict(
         technique='exhaustive enumeration of (history, data-file image, '
                   'index version / truncation / leftover files) triples on '
